@@ -102,7 +102,11 @@ def get_param_targets(
     if not actual_targets:
         for node_id, attrs in flat_graph.nodes(data=True):
             if param in attrs.get("inputs", ()):
-                return [get_root_ancestor(node_id, flat_graph)]
+                root = get_root_ancestor(node_id, flat_graph)
+                # a hidden node is not part of any state: no edge can end there
+                if attrs.get("hide", False) or flat_graph.nodes[root].get("hide", False):
+                    continue
+                return [root]
     return actual_targets
 
 
